@@ -10,7 +10,14 @@
 (*                                                                                                                  *)
 (* Program statements (field k):                                                                                    *)
 (*   label [name, oid, hasBody, body]   const [name, oid]   braces [sid, body]   if0 [body] (untaken `.if 0 {..}')   *)
-(*   use [path, oids] (oid per segment, super included)     import [file, sid]  (`.import * from file')              *)
+(*   use [path, oids] (oid per segment, super included; rendered as `.word path' or inside a string `"{path}"')       *)
+(*   import [file, sid, mode, name, oid, items, block]:  mode "all"  `.import * from file'                             *)
+(*          mode "ns"   `.import * as name from file'  (the file's symbols are reachable as name.x)                     *)
+(*          mode "sel"  `.import a as x, b from file'  items = <<[name, oid, alias, aoid]>> (alias "" = none)           *)
+(*          block = constants of the parameter block `{ .const P = 1 }', defined inside the import's scope              *)
+(* Every table entry and occurrence also has a spelling group sp: the alias token of `a as x' and the uses of x denote   *)
+(* a's node (navigation) but are spelled x, so a rename at a touches the occurrences whose sp is a, a rename at x those  *)
+(* whose sp is the alias.                                                                                                *)
 (*   ifelse [c, then, else]  (`.if c {..} else {..}' with c = 0 or 1; the branch not taken is still analysed:         *)
 (*                            C15 counts occurrences in untaken branches explicitly)                                  *)
 (*   macrodef [name, oid, params, poids, body]   macrocall [name, oid]  (`name(2, ..)', literal arguments)             *)
@@ -22,7 +29,9 @@
 (* the oid of its definition site.                                                                                  *)
 EXTENDS Asm
 
-Ent(oid, at, target, kind) == [oid |-> oid, at |-> at, target |-> target, kind |-> kind]
+NoNode == -9          \* "denotes nothing the property speaks about": any answer is accepted
+EntA(oid, at, target, kind, sp) == [oid |-> oid, at |-> at, target |-> target, kind |-> kind, sp |-> sp]
+Ent(oid, at, target, kind) == EntA(oid, at, target, kind, oid)
 KindOf(s) == IF s.k = "const" THEN "const" ELSE IF s.k = "macrodef" THEN "macro" ELSE IF s.hasBody THEN "scope" ELSE "label"
 TopDefs(prog) == {i \in 1..Len(prog) : prog[i].k \in {"label", "const"}}
 
@@ -69,20 +78,32 @@ DefsOf(prog, scope, files, md) ==
                     (* the file's symbols live in an anonymous scope; its top-level names are aliased into the importing scope *)
                     LET p == files[s.file]
                         isc == Append(scope, s.sid)
-                        T == TopDefs(p) IN
-                    [k \in {Key(scope, <<p[i].name>>) : i \in T} |->
-                       LET i == CHOOSE i \in T : Key(scope, <<p[i].name>>) = k IN Ent(p[i].oid, scope, Append(isc, p[i].name), KindOf(p[i]))]
-                    @@ DefsOf(p, isc, files, md)
+                        T == TopDefs(p)
+                        inner == DefsOf(s.block, isc, files, md) @@ DefsOf(p, isc, files, md)
+                        TopOf(n) == CHOOSE i \in T : p[i].name = n
+                        Vis(it) == IF it.alias # "" THEN it.alias ELSE it.name IN
+                    (CASE s.mode = "ns" -> (Key(scope, <<s.name>>) :> EntA(NoNode, scope, isc, "scope", NoNode))
+                       [] s.mode = "sel" ->
+                            LET Sel == {j \in 1..Len(s.items) : \E i \in T : p[i].name = s.items[j].name} IN
+                            [k \in {Key(scope, <<Vis(s.items[j])>>) : j \in Sel} |->
+                               LET j == CHOOSE j \in Sel : Key(scope, <<Vis(s.items[j])>>) = k
+                                   d == p[TopOf(s.items[j].name)] IN
+                               EntA(d.oid, scope, Append(isc, d.name), KindOf(d), IF s.items[j].alias # "" THEN s.items[j].aoid ELSE d.oid)]
+                       [] OTHER ->
+                            [k \in {Key(scope, <<p[i].name>>) : i \in T} |->
+                               LET i == CHOOSE i \in T : Key(scope, <<p[i].name>>) = k IN Ent(p[i].oid, scope, Append(isc, p[i].name), KindOf(p[i]))])
+                    @@ inner
                [] OTHER -> <<>>
        IN here @@ DefsOf(Tail(prog), scope, files, md)
 
 (* walk a super-free path downwards from scope cur: the oid of the node every segment denotes *)
-RECURSIVE WalkPath(_, _, _, _)
-WalkPath(tab, cur, path, acc) ==
-  IF path = <<>> THEN [ok |-> TRUE, oids |-> acc]
+RECURSIVE WalkPathS(_, _, _, _, _)
+WalkPathS(tab, cur, path, acc, sacc) ==
+  IF path = <<>> THEN [ok |-> TRUE, oids |-> acc, sps |-> sacc]
   ELSE LET k == Key(cur, <<Head(path)>>) IN
-       IF k \notin DOMAIN tab THEN [ok |-> FALSE, oids |-> <<>>]
-       ELSE WalkPath(tab, tab[k].target, Tail(path), Append(acc, tab[k].oid))
+       IF k \notin DOMAIN tab THEN [ok |-> FALSE, oids |-> <<>>, sps |-> <<>>]
+       ELSE WalkPathS(tab, tab[k].target, Tail(path), Append(acc, tab[k].oid), Append(sacc, tab[k].sp))
+WalkPath(tab, cur, path, acc) == WalkPathS(tab, cur, path, acc, acc)
 
 RECURSIVE BubbleWalk(_, _, _)
 BubbleWalk(tab, scope, path) ==
@@ -90,22 +111,23 @@ BubbleWalk(tab, scope, path) ==
   IF r.ok \/ scope = <<>> THEN r ELSE BubbleWalk(tab, Front(scope), path)
 
 (* a `super' segment denotes the scope it reaches: the label that owns it; NoNode for anonymous scopes and the root *)
-NoNode == -9
 SuperNode(tab, sc) == IF sc # <<>> /\ Key(sc, <<>>) \in DOMAIN tab THEN tab[Key(sc, <<>>)].oid ELSE NoNode
 
 (* Resolve: per segment of the path the node it denotes *)
 Resolve(tab, scope, path) ==
   IF HasSuper(path)
     THEN LET r == StripSuper(scope, path) IN
-         IF ~r.ok THEN [ok |-> FALSE, oids |-> <<>>]
-         ELSE LET w == WalkPath(tab, r.scope, r.path, <<>>) IN
-              [ok |-> w.ok, oids |-> [i \in 1..(Len(path) - Len(r.path)) |-> SuperNode(tab, SubSeq(scope, 1, Len(scope) - i))] \o w.oids]
+         IF ~r.ok THEN [ok |-> FALSE, oids |-> <<>>, sps |-> <<>>]
+         ELSE LET w == WalkPath(tab, r.scope, r.path, <<>>)
+                  sup == [i \in 1..(Len(path) - Len(r.path)) |-> SuperNode(tab, SubSeq(scope, 1, Len(scope) - i))] IN
+              [ok |-> w.ok, oids |-> sup \o w.oids, sps |-> sup \o w.sps]
   ELSE BubbleWalk(tab, scope, path)
 
 (* all identifier occurrences: [oid, node, def, file, scope, name, path, seg, call] ; node = -1 when the path does not resolve. *)
 (* An occurrence inside a macro body is listed once per expansion (same oid).                                                *)
-OccC(oid, node, def, file, scope, name, path, seg, call) ==
-  [oid |-> oid, node |-> node, def |-> def, file |-> file, scope |-> scope, name |-> name, path |-> path, seg |-> seg, call |-> call]
+OccS(oid, node, def, file, scope, name, path, seg, call, sp) ==
+  [oid |-> oid, node |-> node, def |-> def, file |-> file, scope |-> scope, name |-> name, path |-> path, seg |-> seg, call |-> call, sp |-> sp]
+OccC(oid, node, def, file, scope, name, path, seg, call) == OccS(oid, node, def, file, scope, name, path, seg, call, node)
 Occ(oid, node, def, file, scope, name, path, seg) == OccC(oid, node, def, file, scope, name, path, seg, FALSE)
 RECURSIVE OccsOf(_, _, _, _, _, _)
 OccsOf(prog, scope, file, files, tab, md) ==
@@ -128,8 +150,17 @@ OccsOf(prog, scope, file, files, tab, md) ==
                     {OccC(s.oid, IF k = "" THEN -1 ELSE md[k].oid, FALSE, file, scope, s.name, <<s.name>>, 1, TRUE)}
                     \cup (IF k = "" THEN {} ELSE OccsOf(md[k].body, CallScope(scope, s), file, files, tab, md))
                [] s.k = "use" -> LET r == Resolve(tab, scope, s.path) IN
-                                 {Occ(s.oids[i], IF r.ok THEN r.oids[i] ELSE -1, FALSE, file, scope, s.path[i], s.path, i) : i \in 1..Len(s.path)}
-               [] s.k = "import" -> OccsOf(files[s.file], Append(scope, s.sid), s.file, files, tab, md)
+                                 {OccS(s.oids[i], IF r.ok THEN r.oids[i] ELSE -1, FALSE, file, scope, s.path[i], s.path, i, FALSE, IF r.ok THEN r.sps[i] ELSE -1) : i \in 1..Len(s.path)}
+               [] s.k = "import" ->
+                    LET isc == Append(scope, s.sid)
+                        NodeIn(n) == IF Key(isc, <<n>>) \in DOMAIN tab THEN tab[Key(isc, <<n>>)].oid ELSE -1 IN
+                    OccsOf(s.block, isc, file, files, tab, md) \cup OccsOf(files[s.file], isc, s.file, files, tab, md)
+                    \cup (IF s.mode = "ns" THEN {Occ(s.oid, NoNode, FALSE, file, scope, s.name, <<s.name>>, 1)} ELSE {})
+                    \cup (IF s.mode = "sel"
+                            THEN {Occ(s.items[j].oid, NodeIn(s.items[j].name), FALSE, file, isc, s.items[j].name, <<s.items[j].name>>, 1) : j \in 1..Len(s.items)}
+                                 \cup {OccS(s.items[j].aoid, NodeIn(s.items[j].name), FALSE, file, scope, s.items[j].alias, <<s.items[j].alias>>, 1, FALSE, s.items[j].aoid) :
+                                         j \in {j \in 1..Len(s.items) : s.items[j].alias # ""}}
+                            ELSE {})
                [] OTHER -> {}
        IN here \cup OccsOf(Tail(prog), scope, file, files, tab, md)
 
@@ -140,7 +171,12 @@ Project(files, main) == LET md == MacroStmts(files[main], <<>>)
                             (* the parameters of a macro that is never expanded are bound to nothing in any build: unspecified *)
                             dead == {"$d" \o ToString(md[k].oid) : k \in {k \in DOMAIN md : md[k].oid \notin called}} IN
                         [tab |-> tab,
-                         occs |-> {IF o.scope # <<>> /\ o.scope[Len(o.scope)] \in dead THEN [o EXCEPT !.node = NoNode] ELSE o : o \in occs0}]
+                         (* a macro's name used as a value: such a project is only "error-free" because the code is never assembled; *)
+                         (* the language server's analysis of untaken code stops with an error there, so nothing is demanded of it   *)
+                         mav |-> \E o \in occs0 : ~o.def /\ ~o.call /\ o.node \in {md[k].oid : k \in DOMAIN md},
+                         (* ... and a macro's name used as a value (possible only in code that is never assembled) denotes nothing *)
+                         occs |-> {IF (o.scope # <<>> /\ o.scope[Len(o.scope)] \in dead) \/ (~o.def /\ ~o.call /\ o.node \in {md[k].oid : k \in DOMAIN md})
+                                     THEN [o EXCEPT !.node = NoNode, !.sp = NoNode] ELSE o : o \in occs0}]
 ErrorFree(P) == \A o \in P.occs : o.node # -1
 NodeOf(P, oid) == LET S == {o \in P.occs : o.oid = oid} IN IF S = {} THEN -1 ELSE (CHOOSE o \in S : TRUE).node
 OccOf(P, oid) == CHOOSE o \in P.occs : o.oid = oid
@@ -168,7 +204,7 @@ Highlights(P, d, file) == {o.oid : o \in {x \in P.occs : x.node = d /\ x.file = 
 (* are defined in order.  What the occurrence denoted then (-1: nothing).                                                 *)
 PassZeroNode(P, o, ord) ==
   IF o.def \/ o.call THEN o.node
-  ELSE LET tb == [k \in {k \in DOMAIN P.tab : ord[P.tab[k].oid] < ord[o.oid] /\ P.tab[k].kind \in {"scope", "const", "macro"}} |-> P.tab[k]]
+  ELSE LET tb == [k \in {k \in DOMAIN P.tab : P.tab[k].kind \in {"scope", "const", "macro"} /\ (P.tab[k].oid = NoNode \/ ord[P.tab[k].oid] < ord[o.oid])} |-> P.tab[k]]
            r == Resolve(tb, o.scope, o.path) IN
        IF r.ok THEN r.oids[o.seg] ELSE -1
 
@@ -176,7 +212,7 @@ PassZeroNode(P, o, ord) ==
 (* block scopes and constants are known from pass 0.  ord: oid -> textual order.  Used only as the witness of a recorded deviation.                                  *)
 PassOneNode(P, o, ord) ==
   IF o.def \/ o.call THEN o.node
-  ELSE LET tb == [k \in {k \in DOMAIN P.tab : ord[P.tab[k].oid] < ord[o.oid] \/ P.tab[k].kind \in {"scope", "const", "macro"}} |-> P.tab[k]]
+  ELSE LET tb == [k \in {k \in DOMAIN P.tab : P.tab[k].kind \in {"scope", "const", "macro"} \/ ord[P.tab[k].oid] < ord[o.oid]} |-> P.tab[k]]
            r == Resolve(tb, o.scope, o.path) IN
        IF r.ok THEN r.oids[o.seg] ELSE -1
 
@@ -185,8 +221,14 @@ PassOneNode(P, o, ord) ==
 PlainNode(P, o) == LET r == Resolve(P.tab, o.scope, o.path) IN IF r.ok THEN r.oids[o.seg] ELSE -1
 ShadowedCalls(P, d) == {o.oid : o \in {x \in P.occs : x.call /\ x.node = d /\ PlainNode(P, x) # d}}
 
+(* the tokens of aliased items `a as x' of the (top-level) selective imports: witness of a recorded deviation only *)
+AliasedItems(prog) == UNION {{prog[i].items[j] : j \in {j \in 1..Len(prog[i].items) : prog[i].items[j].alias # ""}} :
+                              i \in {i \in 1..Len(prog) : prog[i].k = "import"}}
+AliasedItemOids(prog) == UNION {{it.oid, it.aoid} : it \in AliasedItems(prog)}
+
 (* ---------------------------------------------------------------- C15 *)
-RenameSet(P, oid) == {o.oid : o \in {x \in P.occs : x.node = NodeOf(P, oid) /\ x.name # "super"}}
+SpOf(P, oid) == OccOf(P, oid).sp
+RenameSet(P, oid) == {o.oid : o \in {x \in P.occs : x.sp = SpOf(P, oid) /\ x.name # "super"}}
 RECURSIVE RenameProg(_, _, _)
 RenameProg(prog, S, new) ==
   [i \in 1..Len(prog) |->
@@ -199,6 +241,10 @@ RenameProg(prog, S, new) ==
                                         !.params = [j \in 1..Len(s.params) |-> IF s.poids[j] \in S THEN new ELSE s.params[j]],
                                         !.body = RenameProg(@, S, new)]
        [] s.k = "macrocall" -> [s EXCEPT !.name = IF s.oid \in S THEN new ELSE @]
+       [] s.k = "import" -> [s EXCEPT !.name = IF s.oid \in S THEN new ELSE @, !.block = RenameProg(@, S, new),
+                                      !.items = [j \in 1..Len(s.items) |->
+                                                   [s.items[j] EXCEPT !.name = IF s.items[j].oid \in S THEN new ELSE @,
+                                                                      !.alias = IF s.items[j].aoid \in S /\ @ # "" THEN new ELSE @]]]
        [] s.k = "use" -> [s EXCEPT !.path = [j \in 1..Len(s.path) |-> IF s.oids[j] \in S /\ s.path[j] # "super" THEN new ELSE s.path[j]]]
        [] OTHER -> s]
 RenameFiles(files, S, new) == [f \in DOMAIN files |-> RenameProg(files[f], S, new)]
@@ -210,6 +256,9 @@ CaptureFree(files, main, oid, new) ==
   LET P  == Project(files, main)
       d  == NodeOf(P, oid)
       P2 == Project(RenameFiles(files, RenameSet(P, oid), new), main) IN
-  /\ \A k \in DOMAIN P.tab : P.tab[k].oid = d => Key(P.tab[k].at, <<new>>) \notin DOMAIN P.tab
+  /\ \A k \in DOMAIN P.tab : P.tab[k].sp = SpOf(P, oid) => Key(P.tab[k].at, <<new>>) \notin DOMAIN P.tab
   /\ \A o \in P.occs : NodeOf(P2, o.oid) = o.node
+  (* an alias renamed to the name of its own symbol (or the reverse) merges two spelling groups of one node: afterwards *)
+  (* "the old name" no longer identifies a group, so the round trip is not demanded there                                *)
+  /\ \A o \in P.occs : (o.node = d /\ o.sp # SpOf(P, oid)) => o.name # new
 ================================================================================
